@@ -26,6 +26,9 @@ class E2(Exception):
     pass
 
 
+MAX_PROBES = 40
+
+
 class Cancel(BaseException):
     """Thrown by the driver (cancellation-like fault)."""
 
@@ -249,6 +252,11 @@ class World(object):
             return
         self.ev("probe", pid)
         if self.probe_hook is not None:
+            # bounded number of observations from inside running code per run (loops x recursion
+            # x large functions would otherwise make single runs arbitrarily long)
+            self.nprobes = getattr(self, "nprobes", 0) + 1
+            if self.nprobes > MAX_PROBES:
+                return
             self.probe_hook(self, F, pid, where)
 
     # -- managers --
@@ -426,6 +434,19 @@ def make_value(W, shape):
 
 class _Base(object):
     is_async = False
+
+    def __eq__(self, other):
+        if getattr(self.W, "eq_mode", False):
+            return type(other) is type(self)
+        return self is other
+
+    def __ne__(self, other):
+        return not self.__eq__(other)
+
+    def __hash__(self):
+        if getattr(self.W, "eq_mode", False):
+            return 7
+        return object.__hash__(self)
 
     def __init__(self, W, F, k, enter_script, exit_script, swallow, shape):
         self.W = W
